@@ -141,10 +141,10 @@ func (n *nester) nest(imgDir string, depth int, origin string, want map[string][
 		// R(I): what an uninterrupted recovery produces (on a private copy, recovery modifies the directory)
 		ref, err := os.MkdirTemp(n.work, "ref-")
 		if err != nil {
-			panic(err)
+			panic(h.Infra{Msg: "harness file operation failed: " + err.Error()})
 		}
 		if err := copyTree(imgDir, ref); err != nil {
-			panic(err)
+			panic(h.Infra{Msg: "harness file operation failed: " + err.Error()})
 		}
 		var oerr *crash.OpenError
 		want, oerr = crash.ReadAll(ref, n.keys, false)
@@ -160,7 +160,7 @@ func (n *nester) nest(imgDir string, depth int, origin string, want map[string][
 	}
 	run, err := os.MkdirTemp(base, "verif-c10-run-")
 	if err != nil {
-		panic(err)
+		panic(h.Infra{Msg: "harness file operation failed: " + err.Error()})
 	}
 	defer os.RemoveAll(run)
 	tr, err := crash.Run(&n.recover, run, 1<<20, func(root string) error { return copyTree(imgDir, root) })
@@ -180,7 +180,7 @@ func (n *nester) nest(imgDir string, depth int, origin string, want map[string][
 		}
 		d, err := crash.Materialize(fs, n.work)
 		if err != nil {
-			panic(err)
+			panic(h.Infra{Msg: "harness file operation failed: " + err.Error()})
 		}
 		defer os.RemoveAll(d)
 		got, oerr := crash.ReadAll(d, n.keys, true)
@@ -300,6 +300,8 @@ func (n *nester) nest(imgDir string, depth int, origin string, want map[string][
 			win = "replay-flush"
 		case names.IsWal(b.Last.Path):
 			win = "wal-setup"
+		case b.Last.Path != "":
+			win = "replay-flush" // a table being built under another name
 		}
 		n.x.Sub(fmt.Sprintf("%s/d%d/b%d", origin, depth, b.Seq), true)
 		n.x.Labelf("nested-depth%d:%s", depth, win)
@@ -313,7 +315,7 @@ func (n *nester) nest(imgDir string, depth int, origin string, want map[string][
 					n.depth3++
 					img, err := crash.Materialize(fs, n.work)
 					if err != nil {
-						panic(err)
+						panic(h.Infra{Msg: "harness file operation failed: " + err.Error()})
 					}
 					n.nest(img, 3, origin+fmt.Sprintf(", then a kill inside Open after its system call #%d (%s %s)", b.Seq, b.Last.Op, b.Last.Path), want)
 					os.RemoveAll(img)
@@ -377,7 +379,7 @@ func Prop(c Case, x *h.Ctx) *h.Violation {
 		delete(chosen, b.Seq)
 		img, err := crash.Materialize(fs, work)
 		if err != nil {
-			panic(err)
+			panic(h.Infra{Msg: "harness file operation failed: " + err.Error()})
 		}
 		defer os.RemoveAll(img)
 		x.Label("start:" + kind)
